@@ -341,7 +341,7 @@ class C07(Check):
     ]
     assumptions = [
         'handles are obtained through the views right before each call (fresh); cached interface lists of long-lived handles are not modelled',
-        'add_link / connect_interface / disconnect_interface receive node, facility or sub-interfaces, never a ServicePort',
+        'add_link / connect_interface are not handed ServicePort handles (add_link IS handed handles of other classes, disconnect_interface IS handed peering ports: recorded findings C07-9, C07-10)',
         'names are ASCII; property values other than name/type/Labels-presence are not part of the compared state',
         'single topology per store (isolation is C04)',
     ]
